@@ -158,6 +158,15 @@ func runProviderInBubble(spec ProvSpec, stats *Stats, res *RunResult) {
 	g.Tagging = s.Chance(0.3)
 	g.ASGMin, g.ASGMax = int64(min), int64(max)
 	cfg.Groups = []*GroupCfg{g}
+	var g2 *GroupCfg
+	if pc != nil && pc.Kind == "fleet-cross" {
+		// a second fleet-mode group behind the same provider
+		g.LaunchTemplateID, g.LaunchTemplateVersion, g.FleetTimeout = "lt-p", "1", "10500ms"
+		g.ASGMax = 200
+		g2 = &GroupCfg{Name: "qg", LabelKey: "ng", LabelValue: "q", ASG: "asg-q", NodeCPU: 4000, NodeMem: 16 << 30, Idx: 1,
+			LaunchTemplateID: "lt-q", LaunchTemplateVersion: "1", FleetTimeout: "10500ms", ASGMin: 0, ASGMax: 200}
+		cfg.Groups = append(cfg.Groups, g2)
+	}
 	if pc == nil {
 		cfg.FaultP = []float64{0, 0.05, 0.15}[s.Pick(2, 2, 1)]
 		cfg.Calm = cfg.FaultP == 0
@@ -186,10 +195,21 @@ func runProviderInBubble(spec ProvSpec, stats *Stats, res *RunResult) {
 		id := fmt.Sprintf("i-other%d", k)
 		w.aws.insts[id] = &Inst{ID: id, AZ: "us-east-1a", ASG: other.Name, Life: "InService", EC2State: "running", Launch: time.Now(), Owner: "~other"}
 	}
+	if g2 != nil {
+		w.aws.asgs[g2.ASG] = &ASG{Name: g2.ASG, Min: 0, Max: 200, Desired: 2, VPCZone: "subnet-q", Tags: map[string]string{}, Owner: g2.Name}
+		for k := 0; k < 2; k++ {
+			i := w.groups[1].newInstance(g2.ASG, false)
+			i.Life, i.EC2State = "InService", "running"
+		}
+	}
 	w.events = nil // the provider-level driver has no kubelets: no registrations, no reconciler
 	// real provider, as aws.Builder.Build assembles it after session creation
-	_, provCfgs, _, err := LoadOptions((&RunCfg{Groups: []*GroupCfg{withValidOptions(g)}}).ConfigText())
-	if err != nil || len(provCfgs) != 1 {
+	cfgGroups := []*GroupCfg{withValidOptions(g)}
+	if g2 != nil {
+		cfgGroups = append(cfgGroups, withValidOptions(g2))
+	}
+	_, provCfgs, _, err := LoadOptions((&RunCfg{Groups: cfgGroups}).ConfigText())
+	if err != nil || len(provCfgs) != len(cfgGroups) {
 		res.HarnessErr = fmt.Sprintf("provider config: %v", err)
 		return
 	}
@@ -208,6 +228,10 @@ func runProviderInBubble(spec ProvSpec, stats *Stats, res *RunResult) {
 	}
 	p.ng = ng
 	stats.Lifetimes++
+	if pc != nil && pc.Kind == "fleet-cross" {
+		p.fleetCross(pc, g2)
+		return
+	}
 	if pc != nil {
 		p.directed(pc)
 		return
@@ -721,6 +745,60 @@ func (p *provRun) opGetInstance(s *Stream) {
 		if pan != "" {
 			p.viol("C20", "c20-panic", "provider", "Instance", "Instance accessor panicked: "+pan)
 		}
+	}
+}
+
+// fleetCross: K failed fleet scale-ups of group qg, then ONE failed fleet scale-up of group pg behind the
+// same provider. pg's first failure must not end the process (the consecutive-failure limit is per group).
+func (p *provRun) fleetCross(pc *ProvCase, g2 *GroupCfg) {
+	w := p.w
+	ng2, ok := p.cloud.GetNodeGroup(g2.ASG)
+	if !ok {
+		p.res.HarnessErr = "second node group not registered"
+		return
+	}
+	fail := func(group string) {
+		key := fmt.Sprintf("%s/%s#%d", group, OpAttach, w.occ[group+"/"+OpAttach]+1)
+		w.cfg.ForceFault[key] = FErrBefore
+	}
+	refresh := func() {
+		w.ctx = ""
+		_, _, _ = p.guard(func() error { return p.cloud.Refresh() })
+	}
+	for r := 0; r < pc.K; r++ {
+		refresh()
+		p.opIdx++
+		w.ctx = g2.Name
+		p.gs = &GroupScan{Group: g2.Name}
+		w.gscan = p.gs
+		w.scan = &ScanRecord{Index: p.opIdx}
+		w.logf("op %d %s IncreaseSize(%d) with a failing attach", p.opIdx, g2.Name, pc.Size)
+		fail(g2.Name)
+		_, pan, exit := p.guard(func() error { return ng2.IncreaseSize(int64(pc.Size)) })
+		if pan != "" {
+			p.viol("C20", "c20-panic", "provider", "IncreaseSize", pan)
+			return
+		}
+		if exit {
+			return // qg itself reached its own limit: nothing to judge for pg
+		}
+	}
+	refresh()
+	p.opIdx++
+	p.begin(fmt.Sprintf("IncreaseSize(%d) with a failing attach, first failure of this group", pc.Size))
+	fail(p.g.Name)
+	p.st.Check("c12-cross-group-exit", uint64(pc.K)<<8|uint64(pc.Size))
+	p.st.Probe("fleet failures in another group before this group's first failure")
+	_, pan, exit := p.guard(func() error { return p.ng.IncreaseSize(int64(pc.Size)) })
+	if pan != "" {
+		p.viol("C20", "c20-panic", "provider", "IncreaseSize", pan)
+		return
+	}
+	if exit {
+		d := fmt.Sprintf("group %s met its FIRST failed fleet scale-up and the process exited: %d earlier failures of group %s were charged to it", p.g.Name, pc.K, g2.Name)
+		p.viol("C12", "c12-cross-group-exit", "", "", d)
+		p.viol("C20", "c20-stop", "exit-early", "", d)
+		p.viol("C18", "c18-reported", "exit-early", "", d)
 	}
 }
 
